@@ -222,5 +222,5 @@ class Relation(Sub):
         return Result(viol, nt, labels)
 
 
-SUBCHECKS = [Relation("neighbours", 1600, 50000), Relation("strengthen", 800, 25000),
-             Relation("union", 800, 25000), Relation("permute", 500, 15000)]
+SUBCHECKS = [Relation("neighbours", 1600, 12800), Relation("strengthen", 800, 6400),
+             Relation("union", 800, 6400), Relation("permute", 500, 4000)]
